@@ -110,6 +110,7 @@ class Function:
         self.args = d.get("args", [])
         self.file = d.get("file", "")
         self.line = d.get("line", 0)
+        self.srcname = d.get("srcname", self.name)
         self.blocks = []
         self.insts = {}
         self._dom = None
@@ -434,6 +435,10 @@ class Module:
 
     def n_insts(self):
         return sum(len(f.insts) for f in self.defined())
+
+    def by_src(self, srcname):
+        """all defined copies of a (static inline) source function; linking several units keeps one copy each"""
+        return [f for f in self.defined() if f.srcname == srcname]
 
     def enum(self, ename, member):
         e = self.enums.get(ename)
